@@ -2,6 +2,7 @@ package vm
 
 import (
 	"fmt"
+	"slices"
 	"sync"
 
 	"github.com/elk-language/elk/value"
@@ -46,6 +47,23 @@ func NewPromise(threadPool *ThreadPool, generator *Generator) *Promise {
 	p.wg.Add(1)
 
 	threadPool.AddTask(p)
+	return p
+}
+
+// Create a new promise executed by the VM on behalf of the given thread.
+// A worker of the thread pool never waits for room in its own task queue.
+func newPromiseFromThread(thread *Thread, threadPool *ThreadPool, generator *Generator) *Promise {
+	if !slices.Contains(threadPool.Threads, thread) {
+		return NewPromise(threadPool, generator)
+	}
+
+	p := &Promise{
+		ThreadPool: threadPool,
+		Body:       generator,
+	}
+	p.wg.Add(1)
+
+	enqueueTask(threadPool.TaskQueue, p)
 	return p
 }
 
@@ -225,10 +243,24 @@ func (p *Promise) Reject(err value.Value, stackTrace *value.StackTrace) {
 func (p *Promise) enqueueContinuations(queue chan *Promise) {
 	for _, cont := range p.continuations {
 		verifAsync("resolve:enqueue-continuation", p, cont, nil)
-		queue <- cont
+		enqueueTask(queue, cont)
 		verifAsync("resolve:enqueued", p, cont, nil)
 	}
 	p.continuations = nil
+}
+
+// Hand a task over to the workers of a thread pool without ever blocking the caller.
+// A pool worker that waits for room in the bounded queue it is supposed to drain
+// (or does so while holding the lock of a promise) can deadlock the whole pool,
+// so when the queue is full a helper goroutine waits for a free slot instead.
+func enqueueTask(queue chan *Promise, task *Promise) {
+	select {
+	case queue <- task:
+	default:
+		go func(queue chan *Promise, task *Promise) {
+			queue <- task
+		}(queue, task)
+	}
 }
 
 func initPromise() {
